@@ -259,9 +259,10 @@ impl SmartCalcConfig {
                     }
                 }
 
+                /* Case insensitive, the month parser works on the original text */
                 let pattern = &match names.is_empty() {
-                    true => format!(r"\b{}\b|\b{}\b", month.long, month.short),
-                    false => format!(r"\b({})\b", names.join("|"))
+                    true => format!(r"(?i)\b{}\b|\b{}\b", month.long, month.short),
+                    false => format!(r"(?i)\b({})\b", names.join("|"))
                 };
                 match Regex::new(pattern) {
                     Ok(re) => language_group.push((re, month.clone())),
